@@ -16,9 +16,10 @@ for line in open("/tmp/confirm_all.log"):
         conf = line.strip()
 meta["property"] = pid
 meta["confirmed_by_me"] = conf
-meta["what_i_ran"] = ("in the scratch worktree /tmp/seed-%s: demo built and run with the change applied (non-zero exit) and after "
-                      "`git stash` (exit 0); `ctest -R <tests_run>` with the change applied; then `git -C /repo apply patch.diff`, "
-                      "`./vcheck run %s --tier quick --no-evidence`, `git -C /repo checkout -- .`") % (tag, pid)
+meta["what_i_ran"] = ("in the scratch worktree /tmp/seed-%s: demo built and run with patch.diff applied (non-zero exit) and with it "
+                      "reverted (exit 0); `ctest -j1 -R <tests_run>` with the change applied (after cmake --build of the targets); "
+                      "then `./vcheck seedtest %s <seed_out>` = the quick check of the property built against an include-path "
+                      "overlay of /repo with patch.diff applied (nothing is ever applied in /repo itself)") % (tag, pid)
 meta["detected_by"] = detected
 json.dump(meta, open(os.path.join(dst, "meta.json"), "w"), indent=1)
 print("saved", dst)
